@@ -47,6 +47,7 @@ func (p *Promise[T]) SetResult(val T, err error) bool {
 	if p.isDone.Swap(true) {
 		return false
 	}
+	verifPoint(0, p)
 	p.result = &val
 	p.err = err
 	close(p.done)
